@@ -218,8 +218,14 @@ template <class T> struct Shrt3d
             if (!oke) { Rp.fail ("extractSHRT(Euler&).regular-matrix-reported-degenerate", in () + " order=" + STATIC6_NAME[o]); continue; }
             LD ee = recomposeErr (se, he, ref::compose (ax[0], ax[1], ax[2], er.x, er.y, er.z), Mlin);
             if (!(ee <= tol) || er.order () != ORD[o])
-                failThrottled (o == 0 ? "extractSHRT(Euler&).recompose" : "extractSHRT(Euler&).recompose.order-other-than-XYZ", [&] { return in () + " order=" + STATIC6_NAME[o]; },
+            {
+                // signature of the known defect: the Euler's ijk slots were filled with the XYZ-layout vector (the
+                // slots recompose M when read "angle about axis a = slot a"); any other wrong answer keeps the plain site
+                LD ex2 = recomposeErr (se, he, ref::compose (ax[0], ax[1], ax[2], er[ax[0]], er[ax[1]], er[ax[2]]), Mlin);
+                bool xyzSlots = er.order () == ORD[o] && ex2 <= tol;
+                failThrottled (xyzSlots ? "extractSHRT(Euler&).recompose.slots-hold-XYZ-layout-vector" : "extractSHRT(Euler&).recompose", [&] { return in () + " order=" + STATIC6_NAME[o]; },
                                [&] { return "S*H*R(euler)*T = M within " + ref::fmtE (tol); }, [&] { return ref::fmtE (ee) + " off; euler slots=" + fmtVec ((const V3&) er); });
+            }
             t.transitions += 2;
         }
     }
